@@ -1663,6 +1663,8 @@ class Analyzer:
                 if obligations is not None:
                     self.call_obligations(fn, st, bb, t, callee_of(t), [None] * len(t["args"]), [None] * len(t["args"]), obligations)
             else:
+                if obligations is not None and getattr(self, "call_probe", None) is not None:
+                    self.call_probe(self, fn, bb, t, st)
                 self.call(fn, st, bb, t, obligations)
         elif t["k"] == "drop":
             pass
